@@ -7,35 +7,14 @@
    reverse reference tables (coq/Lazy.v) are built from comes out of this scan.
    No proofs here; extracted for the correspondence check. *)
 From Coq Require Import List ZArith Bool NArith.
+From SC.gen Require Import ScanRule.
 From SC Require Import P21Lex P21Str.
+From SC Require Export P21Sep.
 Import ListNotations.
 Local Open Scope N_scope.
 
-Definition SLASH : byte := 47.
-Definition STAR : byte := 42.
-Definition HASH : byte := 35.
-Definition LPAR : byte := 40.
-Definition RPAR : byte := 41.
-Definition SEMI : byte := 59.
-Definition EQUALS : byte := 61.
-Definition BANG : byte := 33.
-Definition MINUS : byte := 45.
-Definition USCORE : byte := 95.
-Definition SPACE : byte := 32.
-
 (* 2^64 - 1 : std::numeric_limits<instanceID>::max() *)
 Definition ID_MAX : N := 18446744073709551615.
-
-(* findNormalString("*/") entered after the opening slash and asterisk: the text after the first asterisk-slash *)
-Fixpoint comment_end (l : list byte) : option (list byte) :=
-  match l with
-  | a :: t =>
-    match t with
-    | b :: r => if (a =? STAR) && (b =? SLASH) then Some r else comment_end t
-    | [] => None
-    end
-  | [] => None
-  end.
 
 (* skipWSandComments(); None: a comment that never ends (the stream is at its end, not good) *)
 Fixpoint skip_sep (fuel : nat) (l : list byte) : option (list byte) :=
@@ -58,7 +37,7 @@ Fixpoint skip_sep (fuel : nat) (l : list byte) : option (list byte) :=
 (* the digit loop of readInstanceNumber / operator>> : value, number of digits, rest *)
 Fixpoint digits_loop (l : list byte) (acc : N) (cnt : nat) : N * nat * list byte :=
   match l with
-  | c :: r => if is_digit c then digits_loop r (acc * 10 + (c - 48)) (S cnt) else (acc, cnt, l)
+  | c :: r => if is_digit c then digits_loop r (acc * ID_BASE + (c - 48)) (S cnt) else (acc, cnt, l)
   | [] => (acc, cnt, [])
   end.
 
@@ -76,7 +55,7 @@ Definition read_inst_number (fuel : nat) (l : list byte) : rnum :=
     | c :: r =>
       if c =? HASH then
         let '(v, cnt, r2) := digits_loop (skip_ws r) 0 0 in
-        if Nat.ltb 20 cnt then RNone                      (* "A very large instance ID" *)
+        if Nat.ltb ID_MAXLEN cnt then RNone               (* "A very large instance ID" *)
         else
           match skip_sep fuel r2 with
           | None => RNone
@@ -97,8 +76,7 @@ Definition read_inst_number (fuel : nat) (l : list byte) : rnum :=
 Definition is_upper (c : byte) : bool := (65 <=? c) && (c <=? 90).
 Definition is_kw_char (c : byte) : bool := (c =? MINUS) || (c =? USCORE) || is_upper c || is_digit c.
 (* strchr( ";( /\\", c ) || isspace( c ) : the terminating NUL of the delimiter string matches too *)
-Definition is_kw_delim (c : byte) : bool :=
-  (c =? SEMI) || (c =? LPAR) || (c =? SPACE) || (c =? SLASH) || (c =? 92) || (c =? 0) || is_space c.
+Definition is_kw_delim (c : byte) : bool := existsb (N.eqb c) KW_DELIMS || (c =? 0) || is_space c.
 
 (* getDelimitedKeyword( ";( /\\" ) after skipWS(); None: abort() - no delimiter after the keyword *)
 Fixpoint keyword (fuel : nat) (l : list byte) (acc : list byte) : option (list byte * list byte) :=
@@ -246,19 +224,10 @@ Definition rtext (t : rtok) : list byte :=
   end.
 Definition render (ts : list rtok) : list byte := flat_map rtext ts.
 
-(* the comment text does not hold the closing asterisk-slash *)
-Fixpoint no_close (txt : list byte) : bool :=
-  match txt with
-  | a :: t => match t with b :: _ => negb ((a =? STAR) && (b =? SLASH)) && no_close t | [] => true end
-  | [] => true
-  end.
-
-Definition dval (ds : list byte) : N := fold_left (fun a c => a * 10 + (c - 48)) ds 0.
+Definition dval (ds : list byte) : N := fold_left (fun a c => a * ID_BASE + (c - 48)) ds 0.
 
 Definition plain_ok (c : byte) : bool :=
   negb (c =? LPAR) && negb (c =? RPAR) && negb (c =? SLASH) && negb (c =? APOS) && negb (c =? EQUALS) && negb (c =? HASH).
-
-Definition head_is (p : byte -> bool) (l : list byte) : bool := match l with c :: _ => p c | [] => false end.
 
 (* a token is well formed given the text that follows it *)
 Definition tok_ok (t : rtok) (next : list byte) : bool :=
@@ -294,13 +263,6 @@ Fixpoint refs_of (ts : list rtok) : list N :=
   | [] => []
   end.
 
-(* token separators outside a record: white space, comment, white space, comment, ..., white space *)
-Definition seps : Set := (list (list byte * list byte) * list byte)%type.
-Definition seps_text (s : seps) : list byte :=
-  flat_map (fun p => fst p ++ SLASH :: STAR :: snd p ++ [STAR; SLASH]) (fst s) ++ snd s.
-Definition seps_ok (s : seps) : bool :=
-  forallb (fun p => forallb is_space (fst p) && no_close (snd p)) (fst s) && forallb is_space (snd s).
-
 (* one instance of the data section in an arbitrary layout *)
 Record pinst : Set := mkPI {
   pi_s0 : seps;               (* before the number sign *)
@@ -319,7 +281,7 @@ Definition pinst_text (p : pinst) : list byte :=
 
 Definition pinst_ok (p : pinst) : bool :=
   seps_ok (pi_s0 p) && forallb is_space (pi_ws1 p)
-  && forallb is_digit (pi_ds p) && negb (Nat.eqb (length (pi_ds p)) 0) && Nat.leb (length (pi_ds p)) 20
+  && forallb is_digit (pi_ds p) && negb (Nat.eqb (length (pi_ds p)) 0) && Nat.leb (length (pi_ds p)) ID_MAXLEN
   && (0 <? dval (pi_ds p)) && (dval (pi_ds p) <=? ID_MAX)
   && seps_ok (pi_s1 p) && forallb is_space (pi_ws2 p)
   && forallb is_kw_char (pi_kw p)
